@@ -336,6 +336,22 @@ def rule_i(repo, chk):
     chk.floor('C03.i', n, 5, '(negative child indices on nodes of known type)')
 
 
+def rule_j(repo, chk):
+    chk.clause('C03.j', 'branch identity in the flow analysis: reachability_check decides "same branch" by comparing what get_flow_branch_keyword '
+                        'hands out; that must be the keyword LEAF (leaves compare by identity with one another), not its text - two `elif`/'
+                        '`except` branches have equal texts, and a binding in a sibling branch would count as reaching the use')
+    g = repo.find('jedi.parser_utils', 'get_flow_branch_keyword')
+    kw = [a for a in stmts_in(g, ast.Assign) if norm(a.targets[0]) == 'keyword' and not (isinstance(a.value, ast.Constant) and a.value.value is None)]
+    chk.floor('C03.j', len(kw), 1, '(assignments of the branch keyword)')
+    for a in kw:
+        ok = isinstance(a.value, ast.Name)
+        chk.ob('C03.j', ok, a, 'the branch keyword handed out is the leaf object itself (`%s`)' % short(a), 'a derived value (text) loses the identity of the branch')
+    rc = repo.find('jedi.inference.flow_analysis', '_break_check') if False else None
+    fa = repo.module('jedi.inference.flow_analysis')
+    cmp_ = [x for x in ast.walk(fa.tree) if isinstance(x, ast.Compare) and 'keyword' in norm(x) and isinstance(x.ops[0], (ast.Eq, ast.Is, ast.NotEq, ast.IsNot))]
+    chk.ob('C03.j', bool(cmp_), fa.tree.body[0], 'flow_analysis compares the two branch keywords to tell sibling branches apart', str([norm(x) for x in cmp_]))
+
+
 def rule_h(repo, chk):
     chk.clause('C03.h', 'a use on the right-hand side of a statement does not see that statement\'s own targets: the position limit chosen by '
                         'AbstractTreeName.goto is the start of the enclosing STATEMENT (only statement-level node types, plus the lambda special '
@@ -368,4 +384,4 @@ def describe(chk):
                   'the position limit chosen by AbstractTreeName.goto for walrus/lambda bodies')
 
 
-RULES = [('C03.a', rule_a), ('C03.b', rule_b), ('C03.c', rule_c), ('C03.d', rule_d), ('C03.e', rule_e), ('C03.f', rule_f), ('C03.g', rule_g), ('C03.h', rule_h), ('C03.i', rule_i)]
+RULES = [('C03.a', rule_a), ('C03.b', rule_b), ('C03.c', rule_c), ('C03.d', rule_d), ('C03.e', rule_e), ('C03.f', rule_f), ('C03.g', rule_g), ('C03.h', rule_h), ('C03.i', rule_i), ('C03.j', rule_j)]
